@@ -116,3 +116,40 @@ Proof.
   rewrite (I H0), app_nil_r in H. exact H.
 Qed.
 Print Assumptions payloads_sent_in_send_order_across_rekeys.
+
+(** The block size sendPacket pads to is that of the sender's OUTGOING cipher ([encBlock]); the incoming one
+    ([decBlock]) plays no role: for every pair of block sizes, the framed packet is a whole number of outgoing
+    cipher blocks, its packet_length field is its length minus 4, and it carries 4 .. encBlock+3 padding bytes. *)
+Theorem packet_length_is_multiple_of_the_senders_enc_block : forall (c : ciphers) (z padding : bytes),
+  4 <= encBlock c -> len padding = send_pad c (len z) -> len (frame z padding) < 4294967296 ->
+  len (frame z padding) mod encBlock c = 0 /\
+  be32 (take 4 (frame z padding)) + 4 = len (frame z padding) /\
+  nth 4 (frame z padding) 0 = len padding /\ 4 <= len padding /\ len padding <= encBlock c + 3.
+Proof. exact frame_enc_block. Qed.
+Print Assumptions packet_length_is_multiple_of_the_senders_enc_block.
+
+(** Re-keying: if at every NEWKEYS BOTH ends replace the cipher and the compression context of a direction by fresh,
+    synchronised ones (sequence numbers running on), the payloads of all key generations are delivered in order.
+    (Hypotheses as in payloads_delivered_in_order_any_segmentation_partial; [epochs_ok] asks synchronised contexts
+    at the start of EVERY generation — a decompressor kept from the previous generation does not meet it, see
+    Example stale_inflate_context_fails in Rekey.v.) *)
+Theorem payloads_delivered_across_rekeys_partial :
+  forall (ES DS CS ZS : Type) (enc : ES -> bytes -> bytes * ES) (dec : DS -> bytes -> bytes * DS)
+         (mac : N -> bytes -> bytes) (verify : N -> bytes -> bytes -> bool)
+         (comp : CS -> bytes -> bytes * CS) (decomp : ZS -> bytes -> option (bytes * ZS)) (bs ms : N),
+  8 <= bs ->
+  forall (csync : ES -> DS -> Prop) (zsync : CS -> ZS -> Prop),
+  (forall e d x y e', csync e d -> enc e x = (y, e') -> bs <= len x -> len x mod bs = 0 ->
+     len y = len x /\
+     exists d1 d2, dec d (take bs y) = (take bs x, d1) /\ dec d1 (drop bs y) = (drop bs x, d2) /\ csync e' d2) ->
+  (forall seq p, verify seq p (mac seq p) = true /\ len (mac seq p) = ms) ->
+  (forall c z x y c', zsync c z -> comp c x = (y, c') -> exists z', decomp z y = Some (x, z') /\ zsync c' z') ->
+  forall (eps : list (epoch ES DS CS ZS)) (seq : N),
+  epochs_ok ES DS CS ZS enc mac comp bs csync zsync seq eps ->
+  parse_epochs ES DS CS ZS enc dec mac verify comp decomp bs ms seq eps
+  = flat_map (fun ep => map (fun it => EDeliver (fst it)) (ep_items ES DS CS ZS ep)) eps.
+Proof.
+  intros ES DS CS ZS enc dec mac verify comp decomp bs ms Hbs csync zsync H1 H2 H3.
+  exact (epochs_roundtrip ES DS CS ZS enc dec mac verify comp decomp bs ms Hbs csync zsync H1 H2 H3).
+Qed.
+Print Assumptions payloads_delivered_across_rekeys_partial.
